@@ -985,6 +985,24 @@ class Executor:
             except PathEnd:
                 succ = []
                 done.append(s)
+            except Unsupported as e:
+                # inside a callee that was executed only because it is outside the frame assumptions: go back to the
+                # call and treat it as opaque WITH havoc of everything it can reach (sound, coarser)
+                fb = None
+                for f in s.frames:
+                    if getattr(f, "fallback", None) is not None:
+                        fb = f.fallback
+                        break
+                if fb is None:
+                    raise
+                self.stats.setdefault("auto_inline_fallbacks", {})
+                k = str(e)[:100]
+                self.stats["auto_inline_fallbacks"][k] = self.stats["auto_inline_fallbacks"].get(k, 0) + 1
+                if getattr(fb, "fallback_used", False):
+                    succ = []
+                else:
+                    fb.fallback_used = True
+                    succ = [fb]
             for x in succ:
                 if x.status == "running":
                     work.append(x)
@@ -1002,6 +1020,12 @@ class Executor:
             blk = frame.body.blocks.get(frame.block)
             if blk is None:
                 raise Unsupported("no block %s in %s" % (frame.block, frame.body.name[:60]))
+            if getattr(frame, "resume_term", False):
+                frame.resume_term = False
+                res = self.exec_term(st, frame, blk.term)
+                if res is not None:
+                    return res
+                continue
             n = frame.visits.get(frame.block, 0) + 1
             frame.visits[frame.block] = n
             if n > self.loop_bound:
@@ -1254,7 +1278,8 @@ class Executor:
             if seen is not None:
                 seen.add(cname)
             exp = getattr(self, "opaque_expected", None)
-            if exp is not None and cname not in exp and any(_reaches_memory(a) for a in args):
+            forced = cname in getattr(st, "force_opaque", ())
+            if exp is not None and cname not in exp and any(_reaches_memory(a) for a in args) and not forced:
                 depth = sum(1 for f in st.frames if getattr(f, "auto", False))
                 if depth >= 3 or ret_bb is None:
                     raise Unsupported("crate callee %s is not among this obligation's frame assumptions and cannot be inlined (depth %d)" % (cname[:80], depth))
@@ -1262,9 +1287,18 @@ class Executor:
                 if not hasattr(self, "auto_inlined"):
                     self.auto_inlined = set()
                 self.auto_inlined.add(body.name)
+                snap = None
+                if depth == 0:
+                    snap = st.fork()
+                    snap.frames[-1].resume_term = True
+                    snap.force_opaque = set(getattr(st, "force_opaque", ())) | {cname}
                 self.push_frame(st, body, args, t.dest, ret_bb)
                 st.frames[-1].auto = True
+                st.frames[-1].fallback = snap
                 return None
+            if forced:
+                self.havoc_reachable(st, args)
+                self.stats["calls_havoc"]["havoc-all:" + cname] = self.stats["calls_havoc"].get("havoc-all:" + cname, 0) + 1
             self.stats["calls_havoc"][cname] = self.stats["calls_havoc"].get(cname, 0) + 1
             rt = body.ret_ty
             if "{async fn body" in rt or "{async block" in rt or "dyn futures::Future" in rt or "dyn Future" in rt \
@@ -1298,6 +1332,48 @@ class Executor:
             st.events.append(("call", nf, args, v))
             return self.finish_call(st, frame, t, [(v, None)], ret_bb)
         raise Unsupported("call to %s" % nf[:160])
+
+    def havoc_reachable(self, st, args, depth=0):
+        """an opaque callee outside the frame assumptions that could not be executed: everything it may write through
+        its arguments becomes arbitrary (targets of `&mut`, and atomics / lock payloads reachable through any reference)"""
+        seen = set()
+
+        def walk(v, mutable, d):
+            if d > 6 or v is None:
+                return
+            if isinstance(v, Ref):
+                key = (v.cell, tuple(map(str, v.proj)))
+                if key in seen:
+                    return
+                seen.add(key)
+                try:
+                    tgt = self.read_path(st, v.cell, v.proj)
+                except Unsupported:
+                    return
+                if v.mut or mutable:
+                    ty = pointee(v.ty) if v.ty else "?"
+                    fresh = self.fresh(ty, st, "hvm") if ty not in ("?", "") else Obj("?")
+                    try:
+                        self.write_path(st, v.cell, v.proj, fresh)
+                    except Unsupported:
+                        pass
+                    return
+                walk(tgt, False, d + 1)
+            elif isinstance(v, Obj):
+                for k in list(v.fields.keys()):
+                    x = v.fields[k]
+                    if k == (None, 7002) and isinstance(x, Sym):
+                        v.fields[k] = self.fresh(x.ty, st, "hva")
+                    elif k == (None, 7000):
+                        ty = getattr(x, "ty", "?") or "?"
+                        v.fields[k] = self.fresh(ty, st, "hvl") if isinstance(x, Obj) and ty not in ("?", "") else Obj("?")
+                    else:
+                        walk(x, mutable, d + 1)
+            elif isinstance(v, VecV):
+                for x in v.elems:
+                    walk(x, mutable, d + 1)
+        for a in args:
+            walk(a, False, 0)
 
     def finish_call(self, st, frame, t, res, ret_bb):
         """res: list of (value, cond|None) alternatives, or the string 'panic', or None (handler did control flow)"""
